@@ -1,5 +1,6 @@
 """C11  Model parameters map to exactly the places their priors were used."""
 import itertools
+import math
 import operator
 
 import numpy as np
@@ -173,7 +174,8 @@ def ties_by_identity(c):
 
 
 @contract("C11", "tie_renumbering", [MP + "edit_map_indices", MO + "Model.add_tie"],
-          bounded="2-7 parameters, every tie set of size 2-5 (the property's own bound), exhaustively enumerated",
+          bounded="2-7 parameters, every tie set of size 2-5 (the property's own bound) exhaustively, the tied names listed in every order "
+                  "(ties of 2-3) or in four orders (ties of 4-5)",
           no_crosscheck=True)
 def tie_renumbering(c):
     """tying equal parameters removes exactly the duplicates: after add_tie every place that used parameter j uses the tied
@@ -182,28 +184,32 @@ def tie_renumbering(c):
     for n in range(2, 8):
         for m in range(2, min(5, n) + 1):
             for tie in itertools.combinations(range(n), m):
-                pri = [Uniform(0.1, 1.0) for _ in range(n)]
-                sph = Spheres([Sphere(n=1.5, r=pri[k], center=(3.0 * k, 0, 5.0)) for k in range(n)], warn=False)
-                model = ExactModel(sph, calc_func=None, theory=AbstractPointTheory(), noise_sd=0.1)
-                names = list(model._parameter_names)
-                old = list(model._parameters)
-                old_map = model._maps['scatterer']
-                model.add_tie([names[k] for k in tie])
-                new = model._parameters
-                cases += 1
-                ok_len = ok_len and len(new) == n - m + 1 == len(model._parameter_names) == len(set(model._parameter_names))
-                where_new = read_map(model._maps['scatterer'], list(range(len(new))))
-                where_old = read_map(old_map, list(range(n)))
-                flat_new = [v for v in _leaves(where_new) if isinstance(v, int) and not isinstance(v, bool)]
-                flat_old = [v for v in _leaves(where_old) if isinstance(v, int) and not isinstance(v, bool)]
-                for jn, jo in zip(flat_new, flat_old):
-                    target = old[tie[0]] if jo in tie else old[jo]
-                    ok_map = ok_map and new[jn] is target
-                kept = [nm for k, nm in enumerate(names) if k not in tie[1:]]
-                ok_names = ok_names and model._parameter_names == kept
-                ok_untouched = ok_untouched and model._maps['optics'] == edit_map_indices(model._maps['optics'], list(tie))
-    c.ensures("enumerated-cases", cases == sum(len(list(itertools.combinations(range(n), m))) for n in range(2, 8)
-                                               for m in range(2, min(5, n) + 1)))
+                # the tied names may be LISTED in any order: all orders for ties of 2-3, the reversed and a rotated order beyond
+                listings = list(itertools.permutations(tie)) if m <= 3 else [tie, tie[::-1], tie[1:] + tie[:1], (tie[-1],) + tie[:-1]]
+                for listing in listings:
+                    pri = [Uniform(0.1, 1.0) for _ in range(n)]
+                    sph = Spheres([Sphere(n=1.5, r=pri[k], center=(3.0 * k, 0, 5.0)) for k in range(n)], warn=False)
+                    model = ExactModel(sph, calc_func=None, theory=AbstractPointTheory(), noise_sd=0.1)
+                    names = list(model._parameter_names)
+                    old = list(model._parameters)
+                    old_map = model._maps['scatterer']
+                    model.add_tie([names[k] for k in listing])
+                    new = model._parameters
+                    cases += 1
+                    ok_len = ok_len and len(new) == n - m + 1 == len(model._parameter_names) == len(set(model._parameter_names))
+                    where_new = read_map(model._maps['scatterer'], list(range(len(new))))
+                    where_old = read_map(old_map, list(range(n)))
+                    flat_new = [v for v in _leaves(where_new) if isinstance(v, int) and not isinstance(v, bool)]
+                    flat_old = [v for v in _leaves(where_old) if isinstance(v, int) and not isinstance(v, bool)]
+                    ok_map = ok_map and len(flat_new) == len(flat_old)
+                    for jn, jo in zip(flat_new, flat_old):
+                        target = old[tie[0]] if jo in tie else old[jo]
+                        ok_map = ok_map and jn < len(new) and new[jn] is target
+                    kept = [nm for k, nm in enumerate(names) if k not in tie[1:]]
+                    ok_names = ok_names and model._parameter_names == kept
+                    ok_untouched = ok_untouched and model._maps['optics'] == edit_map_indices(model._maps['optics'], list(tie))
+    c.ensures("enumerated-cases", cases == sum(len(list(itertools.combinations(range(n), m))) * (math.factorial(m) if m <= 3 else 4)
+                                               for n in range(2, 8) for m in range(2, min(5, n) + 1)))
     c.ensures("every-place-keeps-its-prior-or-the-representative", ok_map)
     c.ensures("names-parallel-unique-and-kept", c.and_(ok_len, ok_names))
     c.ensures("maps-without-placeholders-unchanged", ok_untouched)
@@ -387,3 +393,45 @@ def composite_from_parameters(c):
         for a, b in zip(rebuilt.scatterers, direct):
             c.ensures("rigid-cluster-equivalent-collection", c.and_(_field_eq(c, a.center, b.center), c.eq(a.r, b.r), c.eq(a.n, b.n)))
         c.ensures("base-spheres-untouched", _field_eq(c, col.scatterers[0].center, s0.center))
+
+
+@contract("C11", "validate_scatterer_nested_priors", ["holopy.scattering.interface:validate_scatterer"],
+          bounded="five placements of the priors: top-level only, only inside the centre, only inside layered index / radius lists, "
+                  "only inside the members of a cluster, none at all")
+def validate_scatterer_nested_priors(c):
+    """the scatterer used for a calculation has every prior replaced by its guess wherever the prior sits - at top level, inside the
+    centre, inside layered lists, inside the members of a collection - contains no prior any more, keeps every fixed value, and
+    leaves the user's scatterer untouched"""
+    where = c.choice("priors_sit", ["top level", "inside the centre only", "inside layered lists only", "inside cluster members only", "nowhere"])
+    g = [c.real("guess%d" % k, pos=True, sample=(0.2, 0.9)) for k in range(3)]
+    P = [Uniform(0.5 * g[k], 2 * g[k], guess=g[k]) for k in range(3)]
+    if where == "top level":
+        sc = Sphere(n=1.5, r=P[0], center=[1.0, 2.0, 5.0])
+        want = lambda v: (c.eq(v.r, g[0]), c.eq(v.n, 1.5), c.eq(np.array(v.center, dtype=object), np.array([1.0, 2.0, 5.0], dtype=object)))
+    elif where == "inside the centre only":
+        sc = Sphere(n=1.5, r=0.5, center=[P[0], 2.0, P[1]])
+        want = lambda v: (c.eq(v.center[0], g[0]), c.eq(v.center[1], 2.0), c.eq(v.center[2], g[1]), c.eq(v.r, 0.5))
+    elif where == "inside layered lists only":
+        sc = Sphere(n=[1.5, P[0] + 1], r=[P[1], P[1] + P[2]], center=[1.0, 2.0, 5.0])
+        want = lambda v: (c.eq(v.n[0], 1.5), c.eq(v.n[1], g[0] + 1), c.eq(v.r[0], g[1]), c.eq(v.r[1], g[1] + g[2]))
+    elif where == "inside cluster members only":
+        sc = Spheres([Sphere(n=1.5, r=0.5, center=[P[0], 0.0, 5.0]), Sphere(n=1.6, r=0.4, center=[3.0, P[1], 6.0])], warn=False)
+        want = lambda v: (c.eq(v.scatterers[0].center[0], g[0]), c.eq(v.scatterers[1].center[1], g[1]), c.eq(v.scatterers[1].r, 0.4),
+                          c.eq(v.scatterers[0].n, 1.5))
+    else:
+        sc = Sphere(n=1.5, r=0.5, center=[1.0, 2.0, 5.0])
+        want = lambda v: (c.eq(v.r, 0.5), c.eq(v.n, 1.5), c.eq(np.array(v.center, dtype=object), np.array([1.0, 2.0, 5.0], dtype=object)))
+    before = repr(sc)
+    v = c.call(validate_scatterer, sc)
+
+    def priors_in(x):
+        if isinstance(x, Prior):
+            return True
+        if isinstance(x, dict):
+            return any(priors_in(y) for y in x.values())
+        if isinstance(x, (list, tuple, np.ndarray)):
+            return any(priors_in(y) for y in (x.tolist() if isinstance(x, np.ndarray) and x.dtype != object else x))
+        return False
+    c.ensures("no-prior-left", not priors_in(v.parameters))
+    c.ensures("guesses-and-fixed-values-at-their-places", c.and_(*want(v)))
+    c.ensures("users-scatterer-untouched", repr(sc) == before)
